@@ -69,6 +69,14 @@ CHECKS = {
          "other",
          "Decides for ALL strings, not samples: each of the 31 validating/recognising regular expressions, as compiled and as used (anchoring or search semantics), accepts exactly the documented grammar; identifier positions admit only identifiers; no language admits whitespace/newline/backslash/unbalanced quotes; prefixes are disjoint. Every string/any leaf of the input model reaches a validator; validators visit every element and call every sibling; todo exemption; creation-method, getter and tag rules; node kinds of the custom unmarshalers. Diagnostic wording is not decided.",
          "DESIGN.md §4 C11"),
+ "C06": ("type-driven access-path coverage (required reference positions enumerated from the types of output.Output; the keys of every comma-ok lookup of the validators resolved to access paths on SSA, through helpers, range variables and append-built collections), same-value rules for emitted vs recorded identifiers, literal exhaustiveness of output.Arg, emission of registrations",
+         "other",
+         "Decides for every position a reference can occur in — the positions are enumerated from the types, so a new one is required automatically — that the validators look it up in the declared set; that the declared sets contain every parameter/service (todo included); that what a resolver emits is what it records, for all tokens of a pattern; that every declared service is registered. Hence an accepted configuration has no dangling reference, modulo the trusted runtime. Diagnostic wording is not decided.",
+         "DESIGN.md §4 C06"),
+ "C07": ("access paths of the arguments of every graph-builder call in BuildDependencyGraph vs the edge kinds enumerated from the types; SSA chain of ValidateCircularDeps; wiring reachability; freshness and loop-exit lints; copy rules for the dependency fields",
+         "other",
+         "The cycle enumeration itself is the runtime library's. Decided: every dependency-carrying position of the compiled output (all argument positions of services, decorator arguments and tags, parameter references) becomes an edge of the right kind with the right endpoints, per element and without leakage between elements; the validator returns exactly the library's verdict on that graph on every path and cannot be switched off; parameter references reach the graph because all tokens' references are recorded and copied.",
+         "DESIGN.md §4 C07"),
 }
 NOT_YET = "check not built yet in this session (design in DESIGN.md §4); will be claimed once its rules run on /repo"
 
